@@ -33,17 +33,23 @@ def Dict.get? (d : Dict) (k : String) : Option Cfg := d.find? (·.name == k)
 inductive Err | noDefaults (version : Nat)
 deriving Repr, DecidableEq
 
-/-- user overrides in the order `config.items()` yields them; `none` = disabled -/
+/-- the items of the validated config in the order `config.items()` yields them (user-supplied and
+schema-filled alike); `none` = disabled -/
 abbrev Overrides := List (String × Nat × Option Nat)   -- (name, EzspConfigId[name], value)
 
 /-- `d.pop(k, None)` -/
 def Dict.popD (d : Dict) (k : String) : Dict := (d.pop k).getD d
 
-def applyOverrides : Dict → Overrides → Dict
+/-- the grow-only flag of the entry currently stored under `n` (false when there is none) -/
+def minOf (d : Dict) (n : String) : Bool := ((d.get? n).map (·.minimum)).getD false
+
+/-- `sup n` = "`n in user_supplied`": the caller passed this key itself.  An item the schema filled in
+(`sup n = false`) is one of the library's own defaults and keeps the grow-only flag of the default it replaces -/
+def applyOverrides (sup : String → Bool) : Dict → Overrides → Dict
   | d, [] => d
-  | d, (name, _, none) :: rest => applyOverrides (d.popD name) rest
+  | d, (name, _, none) :: rest => applyOverrides sup (d.popD name) rest
   | d, (name, id, some v) :: rest =>
-    applyOverrides (d.set { name := name, id := id, value := v, minimum := false }) rest
+    applyOverrides sup (d.set { name := name, id := id, value := v, minimum := !sup name && minOf d name }) rest
 
 /-- `d[k] = d.pop(k)` when `k in d`: the entry moves to the end -/
 def moveLast (d : Dict) (k : String) : Dict :=
@@ -90,16 +96,16 @@ def defaultVals (rows : List Row) : Dict :=
   (rows.filter (·.kind == 1)).foldl (fun d r => d.set (rowCfg r)) []
 
 /-- the merged configuration dict that the write loop iterates -/
-def merged (rows : List Row) (ov : Overrides) : Dict :=
-  let d := applyOverrides (defaultCfgs rows) ov
+def merged (rows : List Row) (sup : String → Bool) (ov : Overrides) : Dict :=
+  let d := applyOverrides sup (defaultCfgs rows) ov
   if d.has packetBufferCountName then moveLast d packetBufferCountName else d
 
-def writeConfigRows (rows : List Row) (ncp : Ncp) (ov : Overrides) : List Op :=
-  writeValues ncp (defaultVals rows) ++ writeCfgs ncp (merged rows ov)
+def writeConfigRows (rows : List Row) (ncp : Ncp) (sup : String → Bool) (ov : Overrides) : List Op :=
+  writeValues ncp (defaultVals rows) ++ writeCfgs ncp (merged rows sup ov)
 
-def writeConfig (version : Nat) (ncp : Ncp) (ov : Overrides) : Except Err (List Op) :=
+def writeConfig (version : Nat) (ncp : Ncp) (sup : String → Bool) (ov : Overrides) : Except Err (List Op) :=
   match defaults version with
   | none => .error (.noDefaults version)
-  | some rows => .ok (writeConfigRows rows ncp ov)
+  | some rows => .ok (writeConfigRows rows ncp sup ov)
 
 end BV.Config
